@@ -32,6 +32,54 @@ def local_aliases(f: Func) -> typing.Dict[str, typing.List[ast.AST]]:
     return out
 
 
+def _resolve_param(px: PyIndex, f: Func, pname: str, depth: int) -> typing.Optional[typing.List[Func]]:
+    """functions a callable parameter of f can be bound to, from every package call site of f; None when some site passes
+    something that cannot be resolved (or there is no site)."""
+    cands: typing.List[Func] = []
+    nsites = 0
+    pnames = [a.arg for a in f.node.args.args]
+    for caller in px.all_funcs:
+        for c in ast.walk(caller.node):
+            if not isinstance(c, ast.Call):
+                continue
+            cname = c.func.attr if isinstance(c.func, ast.Attribute) else (c.func.id if isinstance(c.func, ast.Name) else None)
+            if cname != f.name:
+                continue
+            if f not in px.resolve_call(caller, c):
+                continue
+            names = pnames[1:] if pnames and pnames[0] in ("self", "cls") and isinstance(c.func, ast.Attribute) else pnames
+            val = None
+            for k in c.keywords:
+                if k.arg == pname:
+                    val = k.value
+            if val is None and pname in names and names.index(pname) < len(c.args):
+                val = c.args[names.index(pname)]
+            if val is None:
+                continue
+            nsites += 1
+            if isinstance(val, ast.Attribute):
+                cands.extend(g for g in px.by_method_name.get(val.attr, []) if g.cls is not None)
+            elif isinstance(val, ast.Name):
+                r2 = px.resolve_name(caller.module, val.id)
+                cparams = {a.arg for a in caller.node.args.args + caller.node.args.kwonlyargs}
+                if val.id in cparams and depth > 0 and caller is not f:
+                    sub = _resolve_param(px, caller, val.id, depth - 1)
+                    if sub is None:
+                        return None
+                    cands.extend(sub)
+                elif isinstance(r2, Func):
+                    cands.append(r2)
+                elif val.id in ("str", "repr", "int", "len", "bool"):
+                    pass
+                else:
+                    return None
+            elif isinstance(val, ast.Lambda):
+                pass  # lambda body is part of the caller's statement and is walked there
+            else:
+                return None
+    return cands if nsites else None
+
+
 def resolve_callees(px: PyIndex, f: Func, call: ast.Call) -> typing.Tuple[typing.List[Func], str]:
     """(callees, kind) kind: 'resolved' | 'external' | 'indirect' (call of a local variable / parameter)."""
     fn = call.func
@@ -74,45 +122,9 @@ def resolve_callees(px: PyIndex, f: Func, call: ast.Call) -> typing.Tuple[typing
                     if isinstance(t, ast.Name):
                         loopvars.add(t.id)
         if fn.id in params and fn.id not in loopvars:
-            # callback parameter: resolve through the package call sites of f
-            cands = []
-            ok = True
-            nsites = 0
-            pnames = [a.arg for a in f.node.args.args]
-            for caller in px.all_funcs:
-                for c in ast.walk(caller.node):
-                    if not isinstance(c, ast.Call):
-                        continue
-                    cname = c.func.attr if isinstance(c.func, ast.Attribute) else (c.func.id if isinstance(c.func, ast.Name) else None)
-                    if cname != f.name:
-                        continue
-                    if f not in px.resolve_call(caller, c):
-                        continue
-                    names = pnames[1:] if pnames and pnames[0] in ("self", "cls") and isinstance(c.func, ast.Attribute) else pnames
-                    val = None
-                    for k in c.keywords:
-                        if k.arg == fn.id:
-                            val = k.value
-                    if val is None and fn.id in names and names.index(fn.id) < len(c.args):
-                        val = c.args[names.index(fn.id)]
-                    if val is None:
-                        continue
-                    nsites += 1
-                    if isinstance(val, ast.Attribute):
-                        cands.extend(g for g in px.by_method_name.get(val.attr, []) if g.cls is not None)
-                    elif isinstance(val, ast.Name):
-                        r2 = px.resolve_name(caller.module, val.id)
-                        if isinstance(r2, Func):
-                            cands.append(r2)
-                        elif val.id in ("str", "repr", "int", "len", "bool"):
-                            pass
-                        else:
-                            ok = False
-                    elif isinstance(val, ast.Lambda):
-                        pass  # lambda body is part of the caller's statement and is walked there
-                    else:
-                        ok = False
-            if ok and nsites:
+            # callback parameter: resolve through the package call sites of f (a caller that forwards its own parameter is followed)
+            cands = _resolve_param(px, f, fn.id, 3)
+            if cands is not None:
                 return cands, "resolved"
             return [], "indirect"
         if fn.id in params or fn.id in loopvars:
